@@ -1,10 +1,10 @@
 package main
 
 import (
-	"errors"
 	"context"
 	"encoding/hex"
 	"encoding/json"
+	"errors"
 	"fmt"
 	"os"
 	"strings"
